@@ -32,6 +32,7 @@ void __real_free(void*);
 void* __real_aligned_alloc(size_t, size_t);
 int __real_posix_memalign(void**, size_t, size_t);
 void* __real_memalign(size_t, size_t);
+size_t __real_malloc_usable_size(void*);
 
 #if SIM_FLAVOUR == SIM_ASAN
 void __asan_poison_memory_region(void const volatile* addr, size_t size);
@@ -411,6 +412,12 @@ void __wrap_free(void* p) {
   }
   release_block(b);
   hunlock();
+}
+size_t __wrap_malloc_usable_size(void* p) {
+  if (!p) return 0;
+  if (!in_sim_heap(p)) return __real_malloc_usable_size(p);
+  blk_t* b = find_block(p);
+  return b && b->start == (uint8_t*)p ? b->bytes : 0;
 }
 void* __wrap_realloc(void* p, size_t size) {
   if (p && !in_sim_heap(p)) return __real_realloc(p, size);
